@@ -5,7 +5,9 @@ CONSTANTS
   DefaultMime <- B1_DefaultMime
   MaxLines = 2
   Tokens <- C15_Tokens
-  Kinds = {"file", "dir", "zipfile", "zipdir"}
+  Kinds = {"file", "dir", "zipfile", "zipdir", "mapfile", "mapdir"}
+  ContentKinds = {"file", "dir", "zipfile", "zipdir"}
+  MsgSizes = {10, 3000}
   ContentIdx = {1, 4}
   Exts = {"txt", "q1", "gif", "html"}
   Sizes = {0, 1, 1023, 1024, 1025, 5000}
@@ -17,6 +19,7 @@ INVARIANT M_LastBlankLineLost
 INVARIANT M_Cap20K
 INVARIANT M_BigShape
 INVARIANT M_ViewsTruthful
+INVARIANT M_NoSizeNoClaim
 INVARIANT M_LenOrMarker
 INVARIANT M_InfoFirst
 CHECK_DEADLOCK FALSE
